@@ -20,9 +20,11 @@ import (
 // ------------------------------------------------------------------ fan
 
 type c15FanClient struct {
-	Cid  string   `json:"cid"`
-	Subs []c15Sub `json:"subs"`
-	Gone bool     `json:"gone"` // unregistered through the admin endpoint before the publishes (subscriptions stay in the trie)
+	Cid    string   `json:"cid"`
+	Subs   []c15Sub `json:"subs"`
+	Unsubs []string `json:"unsubs,omitempty"` // UNSUBSCRIBEd after every client has subscribed, before the publishes
+	Left   bool     `json:"left,omitempty"`   // disconnected (socket closed) before the publishes
+	Gone   bool     `json:"gone"`             // unregistered through the admin endpoint before the publishes (subscriptions stay in the trie)
 }
 
 type c15FanPub struct {
@@ -69,7 +71,12 @@ func c15RunFan(in c15FanIn) (obs c15FanObs) {
 	env := c15NewEnv(false, nil)
 	defer env.close()
 	live := map[string]*c15Cli{}
+	// phase 1: everybody connects and subscribes
 	for _, c := range in.Clients {
+		if _, dup := live[c.Cid]; dup {
+			obs.Bad = append(obs.Bad, "duplicate client id "+c.Cid)
+			continue
+		}
 		cli, code := env.dial(c.Cid, true, true)
 		if cli == nil {
 			obs.Bad = append(obs.Bad, fmt.Sprintf("connect %s refused %d", c.Cid, code))
@@ -80,13 +87,29 @@ func c15RunFan(in c15FanIn) (obs c15FanObs) {
 				obs.Bad = append(obs.Bad, fmt.Sprintf("subscribe %s %s: %s", c.Cid, s.F, r))
 			}
 		}
-		if c.Gone {
-			env.httpDeleteSession(c.Cid)
-			if !c15Quiesce(env.open) {
-				obs.Bad = append(obs.Bad, "no quiescence after admin delete")
+		live[c.Cid] = cli
+	}
+	// phase 2: some unsubscribe, disconnect or are deleted before anything is published
+	for _, c := range in.Clients {
+		cli := live[c.Cid]
+		if cli == nil {
+			continue
+		}
+		for _, f := range c.Unsubs {
+			if r := cli.unsubscribe([]string{f}); r != "ok" {
+				obs.Bad = append(obs.Bad, fmt.Sprintf("unsubscribe %s %s: %s", c.Cid, f, r))
 			}
-		} else {
-			live[c.Cid] = cli
+		}
+		if c.Left {
+			cli.closeSock()
+			env.open--
+			delete(live, c.Cid)
+		} else if c.Gone {
+			env.httpDeleteSession(c.Cid)
+			delete(live, c.Cid)
+		}
+		if !c15Quiesce(env.open) {
+			obs.Bad = append(obs.Bad, "no quiescence after "+c.Cid+" changed")
 		}
 	}
 	for i, p := range in.Pubs {
@@ -123,15 +146,15 @@ func c15RunFan(in c15FanIn) (obs c15FanObs) {
 	return
 }
 
-var c15Filters = []string{"a/b", "a/+", "a/#", "+/b", "#", "a", "a/b/c", "+/+", "a/+/c", "a/b/#", "b/b", "+", "b/#", "+/+/c"}
-var c15Topics = []string{"a/b", "a/b", "a/b/c", "a", "b/b", "a/c", "b", "a/b/d"}
+var c15Filters = []string{"a/b", "a/+", "a/#", "+/b", "#", "a", "a/b/c", "+/+", "a/+/c", "a/b/#", "b/b", "+", "b/#", "+/+/c", "a/b/c/d", "a/b/+"}
+var c15Topics = []string{"a/b", "a/b", "a/b/c", "a", "b/b", "a/c", "b", "a/b/d", "a/b/c/d"}
 
 func c15GenFan(r *vfRand, adv bool) c15FanIn {
 	var in c15FanIn
 	n := r.Range(2, 5)
-	mode := r.Intn(6)
+	mode := r.Intn(7)
 	if adv {
-		mode = r.Intn(2) // the two known failure shapes
+		mode = r.PickInt(0, 1, 6) // the known failure shapes
 	}
 	for i := 0; i < n; i++ {
 		c := c15FanClient{Cid: fmt.Sprintf("c%d", i)}
@@ -158,7 +181,41 @@ func c15GenFan(r *vfRand, adv bool) c15FanIn {
 			c.Subs[1].Q = 0
 		}
 		c.Gone = !adv && r.Chance(1, 8)
+		if !c.Gone && r.Chance(1, 4) && len(c.Subs) > 0 {
+			// unsubscribe one of its own filters (sometimes one it never had) or leave altogether
+			switch r.Intn(4) {
+			case 0:
+				c.Left = true
+			case 1:
+				c.Unsubs = []string{c15Filters[r.Intn(len(c15Filters))]}
+			default:
+				c.Unsubs = []string{c.Subs[r.Intn(len(c.Subs))].F}
+			}
+		}
 		in.Clients = append(in.Clients, c)
+	}
+	nested := ""
+	if mode == 6 {
+		// nested filters: one client subscribes below a node whose only direct subscriber then
+		// unsubscribes or disconnects; the deeper subscriptions must keep working
+		base := r.PickStr("a/b", "a", "a/b/c", "a/+")
+		q := r.PickInt(0, 1, 1)
+		deep := []c15Sub{{F: base + "/#", Q: q}}
+		if r.Bool() {
+			deep = append(deep, c15Sub{F: base + "/" + r.PickStr("c", "+", "c/d"), Q: r.PickInt(0, 1)})
+		}
+		in.Clients[0] = c15FanClient{Cid: "c0", Subs: deep}
+		y := c15FanClient{Cid: "c1", Subs: []c15Sub{{F: base, Q: r.Intn(2)}}}
+		if r.Bool() {
+			y.Left = true
+		} else {
+			y.Unsubs = []string{base}
+		}
+		in.Clients[1] = y
+		nested = base
+		if base == "a/+" {
+			nested = "a/b"
+		}
 	}
 	if mode == 0 {
 		// one low-QoS subscriber next to several eligible ones
@@ -172,6 +229,10 @@ func c15GenFan(r *vfRand, adv bool) c15FanIn {
 		if mode <= 1 {
 			t = "a/b"
 			q = 1
+		}
+		if nested != "" {
+			t = nested + r.PickStr("", "/c", "/c/d")
+			q = r.PickInt(0, 1)
 		}
 		if r.Chance(1, 25) {
 			q = 2
